@@ -20,6 +20,8 @@ type ctx struct {
 	r    *rand.Rand
 	tier string
 	n    int // scale
+	// walkAll: run the memory walk (alignment, overlap, len <= cap) on every decode of the stream
+	walkAll bool
 }
 
 func (c *ctx) accepted(groups ...string) []*universe.UStruct {
@@ -310,7 +312,7 @@ func (c *ctx) decodeSide(us []*universe.UStruct, perType int, reencode bool) {
 			gm := c.cfg()
 			gm.minimal, gm.minLen, gm.maxLen, gm.bigStr = true, n, n, false
 			if tv := c.mkMessage(w, gm); tv != nil {
-				c.h.opDec(u, tv.ser(nil), c.dest(u, g), false)
+				c.h.opDec(u, tv.ser(nil), c.dest(u, g), c.walkAll)
 				// … and each container field alone in its message: the container then ends at the
 				// last byte but one, which is where a count check is tight
 				for _, f := range tv.Fields {
@@ -346,7 +348,7 @@ func (c *ctx) decodeSide(us []*universe.UStruct, perType int, reencode bool) {
 				msg = append(msg, trail...)
 			}
 			d := c.dest(u, g)
-			ok, _, k := c.h.opDec(u, msg, d, false)
+			ok, _, k := c.h.opDec(u, msg, d, c.walkAll)
 			if k != nil {
 				ks = append(ks, k)
 			}
